@@ -181,7 +181,13 @@ class CGenerator:
         # no_type is used when a Decl is part of a DeclList, where the type is
         # explicitly only for the first declaration in a list.
         #
-        s = n.name if no_type else self._generate_decl(n)
+        # In a DeclList only the first declaration carries the specifiers;
+        # the others contribute their declarator ("int i = 0, *p = 0").
+        s = (
+            self._generate_type(n.type, emit_specifiers=False)
+            if no_type
+            else self._generate_decl(n)
+        )
         if n.bitsize:
             s += " : " + self.visit(n.bitsize)
         if n.init:
@@ -504,6 +510,7 @@ class CGenerator:
         n: c_ast.Node,
         modifiers: List[c_ast.Node] = [],
         emit_declname: bool = True,
+        emit_specifiers: bool = True,
     ) -> str:
         """Recursive generation from a type node. n is the type node.
         modifiers collects the PtrDecl, ArrayDecl and FuncDecl modifiers
@@ -550,6 +557,8 @@ class CGenerator:
                                 nstr = f"* {quals}{suffix}"
                             else:
                                 nstr = "*" + nstr
+                if not emit_specifiers:
+                    return nstr
                 if nstr:
                     s += " " + nstr
                 return s
@@ -561,7 +570,10 @@ class CGenerator:
                 return " ".join(n.names) + " "
             case c_ast.ArrayDecl() | c_ast.PtrDecl() | c_ast.FuncDecl():
                 return self._generate_type(
-                    n.type, modifiers + [n], emit_declname=emit_declname
+                    n.type,
+                    modifiers + [n],
+                    emit_declname=emit_declname,
+                    emit_specifiers=emit_specifiers,
                 )
             case _:
                 return self.visit(n)
